@@ -114,7 +114,7 @@ PROPS = {
                 extra=native_tables('C15', ('tables', 'swaps')),
                 level_text='ProcessXor._parse/_build are proved, for every integer or byte-string key (any length, cycled; the zero-key shortcuts included) and all data, to present the inner construct with, and to emit, exactly the xor of the bytes with the cycled key (both directions are stated with the same key function of the index); lemma bxor_involution: (a ^ k) ^ k = a on bytes, so the two directions are inverse byte for byte. ProcessRotateLeft._parse/_build are proved against a specification of rotation within big-endian groups written from the documentation, for symbolic data of any length and enumerated parameters (quick: 24 representative (amount, group) pairs covering every branch - no-op, single-byte table, whole-byte permutation, bit pairs, negative and over-wide amounts, invalid group; thorough: all amounts -64..64 x groups 1..8): parse presents the rest of the stream rotated by the amount, build emits the inner bytes rotated by the negated amount, lengths that are not a multiple of the group are RotationError; for every enumerated pair a lemma proves that the parse-side rotation undoes the build-side rotation byte for byte. swapbytes and swapbitsinbytes are verified against their specifications (C03) and proved to be involutions; ByteSwapped/BitsSwapped are checked, on the real objects for sizes 1..16, to hand the same helper to both directions of Transformed. The single-byte rotation table and the bit-reversal table are enumerated completely.',
                 level_note='Transformed/Restreamed themselves (that they apply the decode function to exactly the region and the encode function to exactly the built bytes) are covered only by the cross-cutting clauses, so the swap half rests on helper contracts + involution lemmas + the macro table, not on a contract of the wrapper. Compression codecs are assumed (E6). Trusted: pyvc, solvers.'),
-    'C17': dict(functional=False, generic=True, level='proof', trusted_base=[E3],
+    'C17': dict(functional=True, generic=True, level='proof', trusted_base=[E3],
                 level_text='Frame conditions for ' + GENERIC_NOTE + ': no method stores to an attribute of self, of a sub-construct, of a class or module, nor mutates a mapping or member list belonging to the construct (item stores, dict.setdefault/update/pop/clear); parsing leaves the stream buffer unchanged; the context argument is modified only at _index and unrelated pre-existing containers are untouched (proved through every loop as an invariant). Outcomes of sub-construct calls are functions of (construct, buffer, position, context), so repeated or interleaved calls agree. Threads are not explored: with the frames proved, calls share no mutable state except caller-supplied arguments.',
                 level_note='Thread schedules are argued from the frames, not explored. parse_file/build_file and the bytes/bytearray/memoryview entry points are not under contract yet. Documented exceptions (Rebuffered.stream2, Debugger.retval) are out of scope.',
                 assumptions=PY_SEM + ['threads: not explored; argued from the proved frames (no shared mutable state)']),
